@@ -47,6 +47,7 @@ public:
         mutable_buffer b = *buffer_sequence_begin(buffers);
         if (!r->open || !r->connected) { vk::post_completion(std::move(handler), boost::system::error_code(error::not_connected), std::size_t(0)); return; }
         if (r->shut) { vk::post_completion(std::move(handler), boost::system::error_code(error::eof), std::size_t(0)); return; }
+        if (r->broken) { vk::post_completion(std::move(handler), r->broken, std::size_t(0)); return; }
         // a request to read 0 bytes on a stream socket is a no-op that completes at once (as reactive_socket_service does)
         if (buffer_size(buffers) == 0) { vk::post_completion(std::move(handler), boost::system::error_code{}, std::size_t(0)); return; }
         auto slot = get_associated_cancellation_slot(handler);
@@ -60,7 +61,7 @@ public:
       [this](auto handler, const CB& buffers) {
         vk::world_t& w = vk::world(); vk::sock_rec* r = _r;
         if (!r->open || !r->connected) { vk::post_completion(std::move(handler), boost::system::error_code(error::not_connected), std::size_t(0)); return; }
-        if (r->shut) { vk::post_completion(std::move(handler), boost::system::error_code(error::broken_pipe), std::size_t(0)); return; }
+        if (r->shut || r->broken) { vk::post_completion(std::move(handler), boost::system::error_code(error::broken_pipe), std::size_t(0)); return; }
         if (buffer_size(buffers) == 0) { vk::post_completion(std::move(handler), boost::system::error_code{}, std::size_t(0)); return; }
         r->wdata.clear();
         for (auto it = buffer_sequence_begin(buffers); it != buffer_sequence_end(buffers); ++it) {
